@@ -81,10 +81,16 @@ fn same_or_hex(v: &[u8], reference: &[u8]) -> String { if v == reference { "=".i
 fn run_enc<T: El>(f: &HashMap<String, String>) -> String {
     let xb = unhex(&f["xs"]); let xs: Vec<T> = elems(&xb);
     let q = unhex(&f["q"]); let id = ph(&f["id"]);
-    let mb = Message::builder().id(id).query_bytes(q.clone()).body_typed_slice(&xs).build();
+    // the bulk setter replaces whatever body an earlier setter left in the builder (id selects the
+    // variant: none, a text body first, the bulk setter twice)
+    let b0 = Message::builder().id(id).query_bytes(q.clone());
+    let mb = match id % 4 { 1 => b0.body_utf8("stale body").body_typed_slice(&xs).build(), 2 => b0.body_typed_slice(&xs[..xs.len().min(1)]).body_typed_slice(&xs).build(), _ => b0.body_typed_slice(&xs).build() };
     let mg = Message::builder().id(id).query_bytes(q.clone()).body_beve(&xs).expect("serde encode").build();
     let mut stream = Vec::new();
+    // the streaming writer stamps the lengths and the BEVE body format whatever the header it is
+    // handed already says
     let mut h = Header::new(); h.id = id;
+    if id % 3 == 1 { h.body_format = [2u16, 3, 0x100][(id % 9 / 3) as usize]; h.length = 7; h.body_length = 11; }
     write_message_typed_slice(&mut stream, h, &q, &xs).expect("stream");
     let mut frame = Vec::new();
     write_message(&mut frame, &mb).expect("frame");
@@ -109,10 +115,12 @@ fn run_cplx<T: El, U: El>(f: &HashMap<String, String>) -> String
 where Complex<T>: Serialize + DeserializeOwned {
     let zb = unhex(&f["zs"]); let zs: Vec<Complex<T>> = cplx(&zb);
     let q = unhex(&f["q"]); let id = ph(&f["id"]);
-    let mb = Message::builder().id(id).query_bytes(q.clone()).body_complex_slice(&zs).build();
+    let b0 = Message::builder().id(id).query_bytes(q.clone());
+    let mb = match id % 4 { 1 => b0.body_utf8("stale body").body_complex_slice(&zs).build(), 2 => b0.body_complex_slice(&zs[..zs.len().min(1)]).body_complex_slice(&zs).build(), _ => b0.body_complex_slice(&zs).build() };
     let mg = Message::builder().id(id).query_bytes(q.clone()).body_beve(&zs).expect("serde encode").build();
     let mut stream = Vec::new();
     let mut h = Header::new(); h.id = id;
+    if id % 3 == 1 { h.body_format = [2u16, 3, 0x100][(id % 9 / 3) as usize]; h.length = 7; h.body_length = 11; }
     write_message_complex_slice(&mut stream, h, &q, &zs).expect("stream");
     let mut frame = Vec::new();
     write_message(&mut frame, &mb).expect("frame");
